@@ -20,6 +20,7 @@ pub mod verif_access {
         h
     }
     pub fn history_cell(h: &HistoryTable, p: usize, a: usize, b: usize) -> i32 { h.0[p][a][b] }
+    pub fn killers_set(k: &mut KillersTable, ply: usize, v: [Option<Move>; 2]) { k.0[ply] = v; }
     pub fn killers_raw(k: &KillersTable, ply: usize) -> [Option<Move>; 2] { k.0[ply] }
     pub fn counter_raw(c: &CountermoveTable, p: usize, a: usize, b: usize) -> Option<Move> { c.0[p][a][b] }
 }
